@@ -86,6 +86,9 @@ class ChunkedReader:
 
         data = buf.getvalue()
         line, rest_chunk = data[:idx], data[idx + 2:]
+        # a bare CR or LF is not allowed anywhere in the chunk-size line (RFC9112 7.1.1)
+        if b"\r" in line or b"\n" in line:
+            raise InvalidChunkSize(line)
 
         # RFC9112 7.1.1: BWS before chunk-ext - but ONLY then
         chunk_size, *chunk_ext = line.split(b";", 1)
